@@ -8,8 +8,9 @@ THEOREMS = ["build_calls_nothing", "value_calls_once", "value_changes_nothing_el
 EXPLANATION = ("Theorems: no operation other than value() appends to the call log (build_calls_nothing); in every reachable state value() appends exactly one invocation, of the override if given else of the executor of the dataset the stream was derived from, with removeEmptyMD of the stream's query and the title (value_calls_once; the executor invariant survives the shallow copy QMetaData makes); the root dataset is recoverable (root_recoverable) and 0 / >= 2 roots are rejected. Correspondence: call log and executor of every stream after every step. Oracle (real asyncio): exactly one call per value(), right dataset, query = declarative strip-empty reference, title, returned value / raised exception identity, concurrently awaited calls completed in a generated permutation. PARTIAL: delivery of an awaited coroutine's outcome to its awaiter and make_sync's thread hand-off are asyncio/runtime behaviour, exercised by the oracle, not proved.")
 ASSUMPTIONS = ["asyncio delivers an awaited coroutine's outcome to its awaiter; make_sync runs the coroutine to completion (runtime, exercised not proved)"]
 RULE = (
-    "seeded histories (harness/streams.py: gen_history) of 4-20 operations over a forest of streams on 1-4 datasets: "
-    "Select/Where/SelectMany with text lambdas, MetaData (empty and non-empty), QMetaData (new keys, repeated keys with "
+    "seeded histories (harness/streams.py: gen_history) of 4-20 operations over a forest of streams on 1-4 datasets "
+    "(root EventDataset(...) nodes with 0-2 extra arguments): "
+    "Select/Where/SelectMany with text lambdas, MetaData (empty and non-empty, empty ones stacked directly on each other and then executed), QMetaData (new keys, falsy values 0 and '', repeated keys with "
     "equal/different values, consecutive calls, on roots and derived streams), the four As* terminals, value()/value_async() "
     "with and without override executor and title, executors that return or raise, and batches of 2-4 concurrently awaited "
     "value_async() calls completed in a generated permutation; after EVERY step every live stream is observed; "
